@@ -58,8 +58,20 @@ RT2 = Obj("dataclass", "Rt2", (Fld("first_name", STR), Fld("kids", Coll("list", 
 RT3 = Obj("namedtuple", "Rt3", (Fld("x_y", FLOAT), Fld("t", Tup((INT, Coll("tuplevar", STR))), has_default=True, default=(0, ()))))
 RT4 = Obj("typeddict", "Rt4", (Fld("a_b", Coll("set", INT)), Fld("c", Mapp(STR, FLOAT), td_required=False)))
 RT5 = Obj("dataclass", "Rt5", (Fld("u", Uni((INT, Coll("list", INT))), has_default=True, default=0), Fld("n", NONE, has_default=True, default=None), Fld("any_v", AnyT(), has_default=True, default=None), Fld("e", Opt(P.NAME), has_default=True, default=None)))
-EXTRA_OBJS = (FS, FSN, RT_IN, RT1, RT2, RT3, RT4, RT5)
-EXTRA_TYPES = [FS, FSN, RT1, RT2, RT3, RT4, RT5, Coll("list", FS), Mapp(STR, Tup((INT, RT3))), Opt(RT1), Coll("list", RT4), Tup((RT1, Opt(FS))), Mapp(P.NAME, Coll("list", P.COLOR)), Uni((FS, P.NT)) if False else Uni((P.A, Coll("list", P.A)))]
+# flattened fields whose inner class has aliased fields: explicit alias, class-level aliaser, both,
+# an alias kept out of the class aliaser (override=False), and flattening nested two levels deep
+FL_POS = Obj("dataclass", "FlPos", (Fld("latitude", FLOAT, alias="lat"), Fld("longitude", FLOAT, alias="lon"), Fld("alt_m", Opt(INT), has_default=True, default=None)))
+FL_PLACE = Obj("dataclass", "FlPlace", (Fld("name", STR), Fld("position", FL_POS, flatten=True)))
+FL_INU = Obj("dataclass", "FlInU", (Fld("a_b", INT), Fld("c_d", STR, has_default=True, default="x"), Fld("kept", INT, alias="z", no_override_alias=True, has_default=True, default=1)), class_aliaser="upper")
+FL_HOLDU = Obj("dataclass", "FlHoldU", (Fld("x_y", INT), Fld("inner_u", FL_INU, flatten=True)))
+FL_INB = Obj("dataclass", "FlInB", (Fld("some_v", INT, alias="sv"), Fld("other_v", Coll("list", STR), factory="list")), class_aliaser="prefix")
+FL_HOLDB = Obj("dataclass", "FlHoldB", (Fld("own_f", STR, alias="own"), Fld("inner_b", FL_INB, flatten=True), Fld("n_v", INT, has_default=True, default=0)), class_aliaser="upper")
+FL_MID = Obj("dataclass", "FlMid", (Fld("mid_v", INT, alias="mv"), Fld("pos", FL_POS, flatten=True)))
+FL_TOP = Obj("dataclass", "FlTop", (Fld("mid", FL_MID, flatten=True), Fld("in_b", FL_INB, flatten=True), Fld("top_v", STR, has_default=True, default="t")))
+FL_OBJS = (FL_POS, FL_PLACE, FL_INU, FL_HOLDU, FL_INB, FL_HOLDB, FL_MID, FL_TOP)
+FL_TYPES = [FL_PLACE, FL_HOLDU, FL_HOLDB, FL_MID, FL_TOP, Coll("list", FL_PLACE), Opt(FL_TOP), Mapp(STR, FL_HOLDB), Tup((FL_HOLDU, FL_MID))]
+EXTRA_OBJS = (FS, FSN, RT_IN, RT1, RT2, RT3, RT4, RT5) + FL_OBJS
+EXTRA_TYPES = [FS, FSN, RT1, RT2, RT3, RT4, RT5, Coll("list", FS), Mapp(STR, Tup((INT, RT3))), Opt(RT1), Coll("list", RT4), Tup((RT1, Opt(FS))), Mapp(P.NAME, Coll("list", P.COLOR)), Uni((P.A, Coll("list", P.A)))] + FL_TYPES
 
 
 def bijective(td, realm) -> Optional[str]:
